@@ -69,6 +69,9 @@ pub enum AOp {
     Downgrade,
     /// upgrade the oldest weak reference: must succeed while an owner exists; the new owner is kept
     Upgrade,
+    /// take 4 * (n + 1) read guards at once with try_read (readers never exclude readers), then
+    /// release them all
+    ReadBurst(u8),
 }
 
 #[derive(Clone, Debug, Serialize, Deserialize, PartialEq, Eq, Hash)]
@@ -81,6 +84,9 @@ pub struct AsyncCase {
     /// without running the executor in between)
     #[serde(default)]
     pub finale: u8,
+    /// build the observable with `Default::default()` (the model's initial value is then (0, 0))
+    #[serde(default)]
+    pub start_default: bool,
 }
 
 enum Out {
@@ -708,6 +714,27 @@ impl World {
                 let p = Box::into_raw(Box::new(o.subscribe_reset()));
                 self.subs.push(SubSlot { sub: p, unseen: true, stream_flag: None, polled_under_write: false, busy: false });
             }
+            AOp::ReadBurst(n) => {
+                let Some(o) = self.owner() else { return Ok(()) };
+                let want = 4 * (n as usize + 1);
+                let free = !self.write_held() && self.tasks.iter().all(|t| t.fut.is_none());
+                let mut guards = Vec::with_capacity(want);
+                for _ in 0..want {
+                    match o.try_read() {
+                        Some(g) => guards.push(g),
+                        None => break,
+                    }
+                }
+                let got = guards.len();
+                let held_reads = self.held.iter().flatten().count();
+                drop(guards);
+                if free {
+                    if want >= 16 {
+                        self.rep.classes.push("sixteen_or_more_read_guards_at_once");
+                    }
+                    self.check(got == want, || format!("try_read succeeded only {got} times out of {want} although no write guard is alive and no writer is queued ({held_reads} other read guards held)"))?;
+                }
+            }
             AOp::Downgrade => {
                 if let Some(o) = self.owner() {
                     if self.weaks.len() < 2 {
@@ -777,12 +804,16 @@ pub fn run(case: &AsyncCase, prop: Prop) -> R<CaseReport> {
     let mut w = World {
         prop,
         rep: CaseReport::default(),
-        owners: vec![Box::into_raw(Box::new(SharedObservable::new_async(OVal::new(case.init.0, case.init.1))))],
+        owners: vec![Box::into_raw(Box::new(if case.start_default {
+            <Obs as Default>::default()
+        } else {
+            SharedObservable::new_async(OVal::new(case.init.0, case.init.1))
+        }))],
         weaks: vec![],
         subs: vec![],
         held: vec![],
         tasks: vec![],
-        value: case.init,
+        value: if case.start_default { (0, 0) } else { case.init },
         closed: false,
         queued_then_completed: 0,
         sub_polled_under_write_then_ready: 0,
@@ -892,8 +923,9 @@ pub fn case() -> BoxedStrategy<AsyncCase> {
         1 => Just(AOp::SubscribeReset),
         1 => Just(AOp::Downgrade),
         1 => Just(AOp::Upgrade),
+        1 => (0u8..8).prop_map(AOp::ReadBurst),
     ];
-    ((0u8..3, 0u8..3), proptest::collection::vec(op, 0..=30), prop_oneof![2 => Just(0u8), 1 => Just(1u8)])
-        .prop_map(|(init, ops, finale)| AsyncCase { init, ops, finale })
+    ((0u8..3, 0u8..3), proptest::collection::vec(op, 0..=30), prop_oneof![2 => Just(0u8), 1 => Just(1u8)], prop_oneof![3 => Just(false), 1 => Just(true)])
+        .prop_map(|(init, ops, finale, start_default)| AsyncCase { init, ops, finale, start_default })
         .boxed()
 }
